@@ -36,10 +36,10 @@ class Bounds:
         if len(self.tau) != 2:
             msg = f"tau must be two elements, not {len(self.tau)} elements"
             raise ValueError(msg)
-        if self.M[0] >= self.M[1]:
+        if not self.M[0] < self.M[1]:  # also rejects NaN limits
             msg = f"{self.M[0]=} must be greater than {self.M[1]=}"
             raise ValueError(msg)
-        if self.tau[0] >= self.tau[1]:
+        if not self.tau[0] < self.tau[1]:
             msg = f"{self.tau[0]=} must be greater than {self.tau[1]=}"
             raise ValueError(msg)
 
